@@ -413,7 +413,7 @@ def parseChargeData (j : Json) (L : Nat) : Except String (ChargeData QV × (Nat 
     | some p => p.2
     | none => 0
   let okOp (i : Nat) (name : String) : Bool := (opq.getD (i % max L 1) []).any (fun p => p.1 = name)
-  return (⟨okOp, qop, fun i => wq.getD i 0, qvValid mod, qvLt⟩, okOp)
+  return (⟨okOp, qop, fun i => wq.getD i 0, qvValid mod, qvLt, mod.isEmpty⟩, okOp)
 
 def extOfGraph (j : Json) (g : Graph GQ) : Except String Json := do
   let L := g.L
